@@ -701,7 +701,30 @@ def acm(func):
     return helper
 
 
+def _unbound_exit_manager(base, name):
+    """Factory: every instance gets a class of its own whose exit method is a staticmethod
+    (closing over the instance), so the special-method lookup of `with` yields an unbound
+    function.  Which object the manager is cannot be told from the frame then."""
+
+    def make(W, F, k, enter_script, exit_script, swallow, shape):
+        cls = type(base.__name__ + "UnboundExit", (base,), {"unbound_exit": True})
+        m = cls(W, F, k, enter_script, exit_script, swallow, shape)
+        if name == "__exit__":
+            cls.__exit__ = staticmethod(lambda *exc: base.__exit__(m, *exc))
+        else:
+
+            async def _aexit(*exc):
+                return await base.__aexit__(m, *exc)
+
+            cls.__aexit__ = staticmethod(_aexit)
+        return m
+
+    return make
+
+
 MGR_KINDS = {
+    "US": _unbound_exit_manager(SyncM, "__exit__"),
+    "UA": _unbound_exit_manager(AsyncM, "__aexit__"),
     "S": SyncM,
     "SI": SyncMInherited,
     "A": AsyncM,
